@@ -349,3 +349,86 @@ def read_repo(rel):
     p = os.path.join(REPO, rel)
     with open(p) as f:
         return f.read()
+
+
+def extract_enum(src, name):
+    """enum class Name [: base] { A, B = 2 }  ->  typedef enum { Name_A, Name_B = 2 } Name;"""
+    masked = strip_comments_keep_layout(src)
+    m = re.search(r'\benum\s+(?:class\s+)?' + re.escape(name) + r'\b\s*(?::\s*\w+\s*)?\{', masked)
+    if not m:
+        raise ExtractError('enum %s not found' % name)
+    bo = m.end() - 1
+    bc = match_close(masked, bo, '{', '}')
+    items = [x.strip() for x in masked[bo + 1:bc].split(',') if x.strip()]
+    out = []
+    for it in items:
+        if '=' in it:
+            k, v = it.split('=', 1)
+            out.append('%s_%s = %s' % (name, k.strip(), v.strip()))
+        else:
+            out.append('%s_%s' % (name, it))
+    return 'typedef enum { %s } %s;' % (', '.join(out), name), len(out), src.count('\n', 0, m.start()) + 1
+
+
+CONTAINER_FIELD = re.compile(r'^(?:std::(?:vector|priority_queue|deque|unique_ptr)\s*<.*>|\w*List|Path64|PathD|Paths64|PathsD)(?:::\w+)?\s+(\w+)$')
+
+
+def extract_struct(src, name, cppdefs=()):
+    """Field list of struct/class `name`: member functions, constructors, destructors,
+    access specifiers and default member initialisers are dropped; field declarations are
+    carried verbatim.  Returns (C text, field names, line)."""
+    masked = strip_comments_keep_layout(src)
+    m = None
+    for mm in re.finditer(r'\b(?:struct|class)\s+' + re.escape(name) + r'\b([^;{]*)\{', masked):
+        m = mm
+        break
+    if not m:
+        raise ExtractError('struct %s not found' % name)
+    bo = m.end() - 1
+    bc = match_close(masked, bo, '{', '}')
+    body = masked[bo + 1:bc]
+    body, _ = run_cpp(body, list(cppdefs))
+    body = re.sub(r'^[ \t]*#.*$', '', body, flags=re.M)
+    # remove nested brace blocks together with their heads (methods); `= {}` initialisers first
+    body = re.sub(r'=\s*\{\s*\}', '', body)
+    while True:
+        k = body.find('{')
+        if k < 0:
+            break
+        e = match_close(body, k, '{', '}')
+        # head start: previous ';' or '}' or start
+        j = k - 1
+        while j >= 0 and body[j] not in ';}':
+            j -= 1
+        tail = e + 1
+        # swallow a trailing ';' after the block
+        t2 = tail
+        while t2 < len(body) and body[t2].isspace():
+            t2 += 1
+        if t2 < len(body) and body[t2] == ';':
+            tail = t2 + 1
+        body = body[:j + 1] + ' ' + body[tail:]
+    fields, names = [], []
+    for st in body.split(';'):
+        st = ' '.join(st.split())
+        st = re.sub(r'\b(public|private|protected)\s*:', '', st).strip()
+        if not st or '(' in st or st.startswith('friend') or st.startswith('using') or st.startswith('typedef'):
+            continue
+        st = re.sub(r'\s*=\s*[^,]+', '', st)          # default member initialisers
+        st = re.sub(r'\b(const|mutable|static|inline)\b\s*', '', st) if st.startswith('const uint64_t') else st
+        st = st.replace('nullptr', 'NULL')
+        mc = CONTAINER_FIELD.match(st)
+        if mc:
+            if '::iterator' in st or '::const_iterator' in st:
+                st = 'size_t ' + mc.group(1)          # R12: iterator -> index
+            else:
+                st = 'VF_Vec ' + mc.group(1)          # R12/R14: container -> (data,size) pair
+        st = re.sub(r'^ZCallback(64|D)\b', r'VF_ZCallback\1', st)
+        # field names: identifiers before , or end, after stripping pointer stars
+        for piece in st.split(','):
+            mm = re.search(r'(\w+)\s*(?:\[[^\]]*\])?\s*$', piece.strip())
+            if mm:
+                names.append(mm.group(1))
+        fields.append(st + ';')
+    text = 'struct %s {\n  %s\n};' % (name, '\n  '.join(fields))
+    return text, names, src.count('\n', 0, m.start()) + 1
